@@ -125,7 +125,11 @@ func replayArgs(line []byte, a *Acc) {
 	}
 	for _, old := range []string{"a", "b", "a[0]", "a[1]", "b.a", "zz"} {
 		old := old
-		call("NewMap(two pairs, one new key)", func() { mv.NewMap(l.S, old+":"+newKey); mv.NewMap(old+":"+newKey, l.S); mv.NewMap("b:r", l.S, old+":r") })
+		call("NewMap(two pairs, one new key)", func() {
+			mv.NewMap(l.S, old+":"+newKey)
+			mv.NewMap(old+":"+newKey, l.S)
+			mv.NewMap("b:r", l.S, old+":r")
+		})
 	}
 	// leaf enumeration on the Map with empty keys
 	call("LeafNodes", func() { mv.LeafNodes(); mv.LeafNodes(true); mv.LeafPaths(); mv.LeafValues() })
@@ -246,6 +250,7 @@ var xmlDecoderForms = []xmlDecoderForm{
 	}},
 	{"NewMapXml(cast)", false, func(b []byte) (map[string]interface{}, error) { m, e := mxj.NewMapXml(b, true); return m, e }},
 	{"NewMapXmlSeq", true, func(b []byte) (map[string]interface{}, error) { m, e := mxj.NewMapXmlSeq(b); return m, e }},
+	{"NewMapXmlSeq(cast)", true, func(b []byte) (map[string]interface{}, error) { m, e := mxj.NewMapXmlSeq(b, true); return m, e }},
 	{"NewMapXmlSeqReader", true, func(b []byte) (map[string]interface{}, error) {
 		m, e := mxj.NewMapXmlSeqReader(hideByteReader{bytes.NewReader(b)})
 		return m, e
